@@ -636,6 +636,17 @@ pub fn static_corpus() -> Vec<FnSpec> {
             s.policy = Some(Policy::Lru);
             v.push(s);
         }
+        // invalidate_on combined with max_memory: a refresh whose fresh value cannot be cached
+        // (larger than max_memory) must still get rid of the stale entry
+        for &p in &[Policy::Lru, Policy::Fifo] {
+            let i = id();
+            let mut s = FnSpec::new(i, &format!("inv_{}_{:04}", fl_tag(fl), i), "inv", fl);
+            s.invalidate_on = true;
+            s.max_memory = Some(("\"200\"".into(), 200));
+            s.pad = 1;
+            s.policy = Some(p);
+            v.push(s);
+        }
     }
     // registry family: overlapping metadata over a pool of 6 strings
     {
